@@ -127,7 +127,10 @@ func (w *World) SortedStats() []string {
 type ExitPanic struct{ Code int }
 
 // BudgetPanic unwinds an operation that exceeded its loop-step budget.
-type BudgetPanic struct{ Ticks int64 }
+type BudgetPanic struct {
+	Ticks int64
+	Wall  bool // cut off by the wall-clock backstop, not by the step budget
+}
 
 // CrashPanic unwinds the simulated process killed by the simulator
 // (crash point inside a file write).
@@ -145,7 +148,7 @@ func Tick() {
 		W.WallDeadline = 0
 		W.TickBudget = 1 << 40
 		W.Event("wall-clock backstop")
-		panic(BudgetPanic{Ticks: t})
+		panic(BudgetPanic{Ticks: t, Wall: true})
 	}
 	if W.Ticks > W.TickBudget {
 		t := W.Ticks
